@@ -178,8 +178,10 @@ pub fn run(stim: &Value, rec: &Rec) {
 }
 
 fn rs(rng: &mut impl Rng) -> String { ["", "a", "field.name", "héllo wörld", "x\ny", "日本語", "100% \"q\"", "long-long-long-long-long-long-long-long-long-long",
+    // whitespace at either end is part of the text (an indented cause line, a trailing newline, a message of blanks only)
+    "  caused by: lock held", "line\n", "\t", " ",
     // longer than the 64 characters googleapis recommends for some fields (a recommendation, not something the library may enforce by dropping data)
-    "k0123456789k0123456789k0123456789k0123456789k0123456789k0123456789k0123456789", "日本語日本語日本語日本語日本語日本語日本語日本語"][rng.gen_range(0..10)].to_string() }
+    "k0123456789k0123456789k0123456789k0123456789k0123456789k0123456789k0123456789", "日本語日本語日本語日本語日本語日本語日本語日本語"][rng.gen_range(0..14)].to_string() }
 pub fn rand_detail(rng: &mut impl Rng, kind: usize) -> Value {
     let t = |rng: &mut dyn FnMut() -> String, n: usize, k: usize| -> Vec<Vec<String>> { (0..n).map(|_| (0..k).map(|_| rng()).collect()).collect() };
     let mut f = || rs(rng);
